@@ -115,7 +115,7 @@ func c14Gen(r *rand.Rand) *c14Case {
 	kinds := []string{"header", "short", "year", "ver", "sig"}
 	nf := 1 + r.Intn(4)
 	names := []string{"rules/REQUEST-901-INITIALIZATION.conf", "rules/REQUEST-932-APPLICATION-ATTACK-RCE.conf", "crs-setup.conf.example",
-		"rules/RESPONSE-999-EXCLUSION-RULES-AFTER-CRS.conf.example", "util/docker/extra.conf", "plugins/deep/er/plugin-config.conf", "regex-assembly/odd.conf", "tests/sample.example"}
+		"rules/RESPONSE-999-EXCLUSION-RULES-AFTER-CRS.conf.example", "util/docker/extra.conf", "plugins/deep/er/plugin-config.conf", "regex-assembly/odd.conf", "tests/sample.example", ".ci/modsecurity/crs-setup.conf", ".github/templates/rule.example", "rules/.hidden.conf"}
 	for _, i := range r.Perm(len(names))[:nf] {
 		f := c14File{Path: names[i], CRLF: core.Chance(r, 1, 6), NoFinal: core.Chance(r, 1, 6)}
 		n := 3 + r.Intn(25)
@@ -132,11 +132,11 @@ func c14Gen(r *rand.Rand) *c14Case {
 		c.Files = append(c.Files, f)
 	}
 	c.Decoys = sut.Tree{
-		"notes.example.txt":        "# OWASP CRS ver.1.0.0\n    ver:'OWASP_CRS/1.0.0',\\\n",
-		"rules/old.conf.bak":       "# OWASP CRS ver.1.0.0\nSecComponentSignature \"OWASP_CRS/1.0.0\"\n",
-		"README.md":                "ver:'OWASP_CRS/1.0.0'\n# Copyright (c) 2021-2022 CRS project. All rights reserved.\n",
-		"rules/conf":               "# OWASP CRS ver.1.0.0\n",
-		"docs/example":             "setvar:tx.crs_setup_version=100\n",
+		"notes.example.txt":         "# OWASP CRS ver.1.0.0\n    ver:'OWASP_CRS/1.0.0',\\\n",
+		"rules/old.conf.bak":        "# OWASP CRS ver.1.0.0\nSecComponentSignature \"OWASP_CRS/1.0.0\"\n",
+		"README.md":                 "ver:'OWASP_CRS/1.0.0'\n# Copyright (c) 2021-2022 CRS project. All rights reserved.\n",
+		"rules/conf":                "# OWASP CRS ver.1.0.0\n",
+		"docs/example":              "setvar:tx.crs_setup_version=100\n",
 		"../outside/elsewhere.conf": "# OWASP CRS ver.1.0.0\n    ver:'OWASP_CRS/1.0.0',\\\n",
 	}
 	return c
